@@ -322,8 +322,31 @@ fn query_bytes(r: &mut Rng, owners: &[DomainName]) -> Vec<u8> {
 
 /// C09: a server in authoritative-only mode over generated zone files; every kind of datagram and
 /// TCP message, interleaved; liveness after every batch.
+/// a zone whose TXT answers make UDP replies of 500..524 octets: the 512 boundary exactly
+fn sweep_zone() -> (Zone, String, Vec<DomainName>) {
+    let apex = DomainName::from_dotted_string("sweep.test.").unwrap();
+    let soa = SOA {
+        mname: DomainName::from_dotted_string("ns.sweep.test.").unwrap(),
+        rname: DomainName::from_dotted_string("admin.sweep.test.").unwrap(),
+        serial: 1, refresh: 2, retry: 3, expire: 4, minimum: 60,
+    };
+    let mut spec = format!("{}!{}", c::name(&apex), crate::streams::zone::soa_text(&soa));
+    let mut zone = Zone::new(apex, Some(soa));
+    let mut names = Vec::new();
+    for k in 380usize..=404 {
+        let name = DomainName::from_dotted_string(&format!("t{k}.sweep.test.")).unwrap();
+        let data = RecordTypeWithData::TXT { octets: bytes::Bytes::from(vec![b'x'; k]) };
+        let rr = ResourceRecord { name: name.clone(), rtype_with_data: data.clone(), rclass: RecordClass::IN, ttl: 300 };
+        spec.push_str(&format!("!i:{}", c::rr(&rr)));
+        zone.insert(&name, data, 300);
+        names.push(name);
+    }
+    (zone, spec, names)
+}
+
 pub fn run_serve(r: &mut Rng, n: usize, out: &mut Out) {
     let mut done = 0;
+    let mut swept = false;
     while done < n {
         let dir = scratch("serve");
         let mut specs = Vec::new();
@@ -355,13 +378,40 @@ pub fn run_serve(r: &mut Rng, n: usize, out: &mut Out) {
         if owners.is_empty() {
             owners.push(DomainName::root_domain());
         }
+        let mut sweep_names = Vec::new();
+        if !swept {
+            swept = true;
+            let (z, spec, names) = sweep_zone();
+            let path = dir.join("sweep.zone");
+            std::fs::write(&path, z.serialise()).unwrap();
+            args.push("-z".into());
+            args.push(path.to_string_lossy().into_owned());
+            specs.push(spec);
+            sweep_names = names;
+        }
         let Some(server) = Server::start(&args) else {
             out.case(&["server.start", "auth"], "failed");
             done += 1;
             continue;
         };
         let zones = if specs.is_empty() { "-".to_string() } else { specs.join("^") };
-        let batch = r.range(20, 60).min(n - done);
+        for name in &sweep_names {
+            let q = Message::from_question(
+                r.next_u64() as u16,
+                Question { name: name.clone(), qtype: QueryType::Record(RecordType::TXT), qclass: QueryClass::Record(RecordClass::IN) },
+            )
+            .to_octets()
+            .unwrap()
+            .to_vec();
+            let text = match server.udp_with_sentinel(&q) {
+                None => "server-silent".to_string(),
+                Some(replies) if replies.is_empty() => "noreply".to_string(),
+                Some(replies) => replies.iter().map(|b| c::hex(b)).collect::<Vec<_>>().join("+"),
+            };
+            out.case(&["server.udp", "auth", &zones, &c::hex(&q)], &text);
+            done += 1;
+        }
+        let batch = r.range(20, 60).min(n.saturating_sub(done)).max(1);
         for _ in 0..batch {
             let q = query_bytes(r, &owners);
             match r.below(10) {
@@ -425,6 +475,8 @@ fn file_state_text(name: &str, f: &FileState) -> String {
 }
 
 fn write_file(dir: &Path, name: &str, f: &FileState) {
+    // replace whatever is there (also a dangling symlink)
+    let _ = std::fs::remove_file(dir.join(name));
     match f {
         FileState::Zone { text, .. } => std::fs::write(dir.join(name), text).unwrap(),
         FileState::Bad { text } => std::fs::write(dir.join(name), text).unwrap(),
@@ -509,6 +561,12 @@ pub fn run_reload(r: &mut Rng, n: usize, out: &mut Out) {
                         let f = new_zone(r, &mut owners);
                         write_file(&zdir, &files[i].0, &f);
                         files[i].1 = f;
+                    }
+                    4 if !files.is_empty() && r.chance(1, 3) => {
+                        // an unreadable entry: a dangling symbolic link in the directory
+                        let name = format!("{}l{}.zone", (b'a' + r.below(20) as u8) as char, files.len());
+                        let _ = std::os::unix::fs::symlink(zdir.join("does-not-exist"), zdir.join(&name));
+                        files.push((name, FileState::Bad { text: Vec::new() }));
                     }
                     4 if !files.is_empty() => {
                         // corrupt: unparsable or unreadable (invalid UTF-8)
@@ -687,6 +745,93 @@ pub fn run_config_load(r: &mut Rng, n: usize, out: &mut Out) {
             &format!("{}#{}", if loaded.is_some() { "loaded" } else { "failed" }, answers.join("+")),
         );
         done += 1;
+        let _ = std::fs::remove_dir_all(&dir);
+    }
+}
+
+/// C19: a reload that is held open (the loader blocks on a FIFO in the -Z directory): queries must
+/// keep being answered from the old configuration meanwhile, and a second SIGUSR1 arriving during
+/// the reload must not be lost.
+pub fn run_reload_blocked(r: &mut Rng, n: usize, out: &mut Out) {
+    for _ in 0..n {
+        let dir = scratch("blocked");
+        let zdir = dir.join("zones");
+        std::fs::create_dir_all(&zdir).unwrap();
+        let zone_text = |last: u8| format!("$ORIGIN example.com.\n@ IN SOA ns admin 1 2 3 4 60\nwww 300 IN A 10.0.0.{last}\n");
+        let (v1, v2, v3) = (1 + r.below(50) as u8, 60 + r.below(50) as u8, 120 + r.below(50) as u8);
+        std::fs::write(zdir.join("a.zone"), zone_text(v1)).unwrap();
+        let args: Vec<String> = vec!["--authoritative-only".into(), "-Z".into(), zdir.to_string_lossy().into_owned()];
+        let Some(server) = Server::start(&args) else {
+            out.case(&["server.start", "reload-blocked"], "failed");
+            continue;
+        };
+        let www = Question {
+            name: DomainName::from_dotted_string("www.example.com.").unwrap(),
+            qtype: QueryType::Record(RecordType::A),
+            qclass: QueryClass::Record(RecordClass::IN),
+        };
+        let addr_of = |server: &Server, id: u16, wait_ms: u64| -> String {
+            let bytes = Message::from_question(id, www.clone()).to_octets().unwrap().to_vec();
+            match server.udp_once(&bytes, Duration::from_millis(wait_ms)) {
+                None => "noreply".into(),
+                Some(b) => match Message::from_octets(&b) {
+                    Ok(m) => m.answers.iter().find_map(|rr| match rr.rtype_with_data {
+                        RecordTypeWithData::A { address } => Some(address.octets()[3].to_string()),
+                        _ => None,
+                    }).unwrap_or_else(|| "no-a-record".into()),
+                    Err(_) => "undecodable".into(),
+                },
+            }
+        };
+        let before = addr_of(&server, 1, 2000);
+        // the FIFO sorts after a.zone, so a.zone is read first and the loader then blocks
+        let fifo = zdir.join("b.zone");
+        let _ = Command::new("mkfifo").arg(&fifo).status();
+        // feeds the FIFO once: open blocks until the loader opens it for reading
+        let feed = |fifo: PathBuf| {
+            std::thread::spawn(move || {
+                if let Ok(mut f) = std::fs::OpenOptions::new().write(true).open(&fifo) {
+                    std::thread::sleep(Duration::from_millis(400));
+                    let _ = f.write_all(b"$ORIGIN other.test.\n@ IN SOA ns admin 1 2 3 4 60\nx 300 IN A 10.9.9.9\n");
+                }
+            })
+        };
+        let feeder = feed(fifo.clone());
+        std::fs::write(zdir.join("a.zone"), zone_text(v2)).unwrap();
+        let from = server.log_len();
+        server.sigusr1();
+        std::thread::sleep(Duration::from_millis(100));
+        // reload in progress (blocked on the FIFO for ~400 ms): queries now, and the second edit + signal
+        let during: Vec<String> = (0..3).map(|i| addr_of(&server, 10 + i, 250)).collect();
+        std::fs::write(zdir.join("a.zone"), zone_text(v3)).unwrap();
+        server.sigusr1();
+        let first = server.wait_reload(from);
+        let from2 = server.log_len();
+        // the pending second signal starts another reload, which blocks on the FIFO again
+        let feeder2 = feed(fifo.clone());
+        let second = server.wait_reload(from2);
+        let _ = feeder2;
+        // remove the FIFO so that nothing blocks any more, let the feeder finish
+        let _ = std::fs::remove_file(&fifo);
+        let fin = addr_of(&server, 99, 2000);
+        let alive = server.alive();
+        if std::env::var("VERIF_DEBUG").is_ok() {
+            for l in server.log.lock().unwrap().iter() {
+                eprintln!("LOG {l}");
+            }
+        }
+        out.case(
+            &["server.reload-blocked", &format!("{v1},{v2},{v3}")],
+            &format!(
+                "before:{before} during:{} first:{} second:{} final:{fin} {}",
+                during.join(","),
+                first.map_or("none".into(), |b| b.to_string()),
+                second.map_or("none".into(), |b| b.to_string()),
+                if alive { "alive" } else { "dead" }
+            ),
+        );
+        drop(server);
+        let _ = feeder; // detached: it may still be blocked in open(); the process exit ends it
         let _ = std::fs::remove_dir_all(&dir);
     }
 }
